@@ -1,6 +1,7 @@
 """C20 driver: parse + correlate (+ markdown) a project that may contain damaged
 files, under a deterministic step budget, and dump the canonical tree of every
 file FORD accepted."""
+import json
 import os
 import sys
 
@@ -62,7 +63,7 @@ def dump_entity(e, seen, depth=0):
     if ext is not None:
         d["extends"] = _s(ext)
     if hasattr(e, "calls"):
-        d["calls"] = sorted(_s(c) if isinstance(c, str) else origin(c) for c in (e.calls or []))
+        d["calls"] = sorted((_s(c) if isinstance(c, str) else origin(c) for c in (e.calls or [])), key=lambda x: json.dumps(x))
     if hasattr(e, "uses"):
         d["uses"] = sorted(str(getattr(u, "name", u)).lower() for u in (e.uses or []))
     for a in ("retvar", "procedure", "prototype"):
